@@ -193,14 +193,14 @@ pub fn run(tier: Tier) -> Outcome {
     };
     let depth = match tier {
         Tier::Quick => 4,
-        Tier::Thorough => 6,
+        Tier::Thorough => 5,
     };
     for wn in rt_worlds {
         if !want(&format!("rt:{wn}")) {
             continue;
         }
         let Some(h) = guarded(&format!("C03 rt {wn}"), || roundtrip_model(tier, wn)) else { continue };
-        let lim = Limits { max_depth: depth, max_wall_s: if tier == Tier::Quick { 25.0 } else { 1500.0 }, ..Default::default() };
+        let lim = Limits { max_depth: depth, max_wall_s: if tier == Tier::Quick { 25.0 } else { 900.0 }, ..Default::default() };
         let (report, recheck) = run_world(&h, &lim, Some(depth - 2));
         runs.push(HistRun { world: format!("rt:{wn}"), report, recheck });
     }
